@@ -1718,6 +1718,21 @@ def c17probe(shape, be):
     return dict(bad=[], outcome='ok', yaml=ylog, pickle=plog, text=text[:300])
 HANDLERS.update({'c17probe': c17probe})
 
+def c17state(cname, sname, be):
+    """how YAML and pickle-2 apply a state of the given shape to an instance of the given kind (operations of coq/Model/PickleState.v)"""
+    import yaml, pickle
+    from tools import c17classes as K
+    C = K.STATE_CLASSES[cname]; C.STATE = K.STATE_SHAPES[sname]
+    D = yaml.Dumper if be == 'py' else yaml.CDumper; UL = yaml.UnsafeLoader if be == 'py' else yaml.CUnsafeLoader
+    o = C.__new__(C)
+    try: data = pickle.dumps(o, 2); text = yaml.dump(o, Dumper=D)
+    except Exception as e: return dict(bad=[], outcome='dump_raises ' + type(e).__name__)
+    p = K.observe_state(lambda: pickle.loads(data))
+    try: y = K.observe_state(lambda: yaml.load(text, Loader=UL))
+    except Exception as e: return dict(bad=[], outcome='ok', pickle=p, yaml=['Raised ' + type(e).__name__], text=text[:300], has_dict=hasattr(o, '__dict__'), has_setstate=hasattr(C, '__setstate__'))
+    return dict(bad=[], outcome='ok', pickle=p, yaml=y, text=text[:300], has_dict=hasattr(o, '__dict__'), has_setstate=hasattr(C, '__setstate__'))
+HANDLERS.update({'c17state': c17state})
+
 # ---------------------------------------------------------------------------------------------------------------
 # C06: the LibYAML back-end is a drop-in replacement
 # ---------------------------------------------------------------------------------------------------------------
